@@ -1031,9 +1031,10 @@ def gen_cases(quick):
             cf, ff, _ = FIELDS[f]
             cg, fg, _ = FIELDS[g]
             if quick:
-                prods = [(cf, cg)]
-            else:
-                prods = [(ff, cg), (cf, fg)]
+                # full lists of the small fields, core lists of args / env
+                if f in ('args', 'env'): ff = cf
+                if g in ('args', 'env'): fg = cg
+            prods = [(ff, cg), (cf, fg)]
             for vf_list, vg_list in prods:
                 for vf in vf_list:
                     for vg in vg_list:
@@ -1310,7 +1311,8 @@ def run(ctx):
                  % (', '.join('%s/%d rank%s' % (lm, r, 's' if r > 1 else '')
                               for lm, r in (LAUNCHERS_QUICK if ctx.quick
                                             else LAUNCHERS_THOROUGH)),
-                    'their core value lists' if ctx.quick else
+                    'full x core value lists (arguments and environment: '
+                    'single atoms only)' if ctx.quick else
                     'full x core value lists',
                     len(ARG_ATOMS),
                     '' if ctx.quick else '; plus %d further atoms alone and '
